@@ -22,7 +22,7 @@ LEVEL_TEXT = {
  "C20": _lt("files", "Fault-free exploration plus fault enumeration over a simulated file layer: glibc stdio runs unmodified over fopencookie streams whose backing store, short reads, read/write/seek errors, failing fopen and failing fclose are owned by the simulator; a byte-array model decides round trips, stell/seof and exactly-once close, and guards on every stdio entry point used by File.c prove that a File that is not open never reaches stdio.", TRUST + " glibc is the trusted 'C library view'.", "DESIGN.md section 5 C20"),
  "C08": _lt("dispatch", "Seeded exploration over lookup histories (cold/warm/re-cooled caches, every public lookup entry point) for all built-in types and classes and run-time types with 0-256 instances, and over schedules: concurrent first lookups by 2-16 threads with pre-emptions placed inside the cache-fill windows by guarded yield hooks; oracle = independent scan of the raw type record.", TRUST, "DESIGN.md section 5 C08"),
  "C13": _lt("threads", "Seeded exploration over schedules (PCT-style pre-emption lists and chaos mode) of 2-16 real Cello threads serialised by the baton scheduler: per-workload digests equal the single-threaded digests, finalisation stays with the owning thread's collector, exceptions and TLS stay private, join publishes, mutex sections never overlap, no deadlock, thread teardown finalises everything.", TRUST, "DESIGN.md section 5 C13"),
- "C18": _lt("containers+exc", "Differential replay: one seeded in-contract plan is executed by a simulator binary per build configuration ({default, CELLO_NDEBUG, cache off, CELLO_NGC} x optimisation levels); transcripts / event traces must be byte-identical and every configuration must agree with the reference model.", TRUST + " In-contract programs only.", "DESIGN.md section 5 C18", "deterministic simulation: differential replay of one seeded plan across build configurations"),
+ "C18": _lt("containers+exc", "Differential replay: one seeded in-contract plan is executed by a simulator binary per build configuration ({default, CELLO_NDEBUG, cache off, CELLO_NGC} x optimisation levels, plus the clang AddressSanitizer+UBSan build); transcripts / event traces must be byte-identical and every configuration must agree with the reference model.", TRUST + " In-contract programs only.", "DESIGN.md section 5 C18", "deterministic simulation: differential replay of one seeded plan across build configurations"),
 }
 
 NOT_APPLICABLE = {
